@@ -76,102 +76,116 @@ def signature(V, target, stderr_text, rc):
         func = re.sub(r"\(.*", "", fm.group(1)); where = "%s@%s:[%s]" % (func.split("::")[-1] if "::" in func else func, fm.group(2), source_line(V, fm.group(2), int(fm.group(3))))
     return "crash/%s/%s/%s" % (target, kind, where)
 
-def run_one(V, exe, path, timeout=180):
+GROUPS = {"imp": 3, "ctor": 3, "ver": 4, "pgp": 6}   # group -> forked workers (sum = 16)
+
+def group_targets(V, exe, group):
+    p = subprocess.run([exe], env=fenv(V, {"VF_GROUP": group, "VF_PRINT_GROUP": "1"}), capture_output=True, text=True)
+    return [l.split()[1] for l in p.stdout.splitlines() if len(l.split()) == 2]
+
+def run_one(V, exe, path, group, timeout=180):
     try:
-        p = subprocess.run([exe, path], capture_output=True, text=True, errors="replace", timeout=timeout, env=fenv(V))
+        p = subprocess.run([exe, path], capture_output=True, text=True, errors="replace", timeout=timeout, env=fenv(V, {"VF_GROUP": group}))
         return p.returncode, p.stderr
     except subprocess.TimeoutExpired:
         return -9, "timeout (harness watchdog)"
 
+def campaign(V, exe, group, workers, work, tier, seed, budget, prop):
+    corpus = os.path.join(work, group, "corpus"); art = os.path.join(work, group, "art"); os.makedirs(corpus); os.makedirs(art)
+    subprocess.run([exe], env=fenv(V, {"VF_GEN_CORPUS": corpus, "VF_GROUP": group}), capture_output=True, text=True)
+    nseed = len(os.listdir(corpus)); targets = group_targets(V, exe, group)
+    reg = sorted(glob.glob(os.path.join(V.VERIF, "replays", prop, group + "-*.bin")))
+    for f in reg: shutil.copy(f, os.path.join(corpus, "regression-" + os.path.basename(f)))
+    nhand = 0
+    if group == "pgp":
+        hand = sorted(glob.glob(os.path.join(V.BUILD, "handoff", prop, "*.bin"))) + sorted(glob.glob(os.path.join(V.VERIF, "corpus", prop, "handoff", "*.bin")))
+        ids = [targets.index(x) for x in ("pgp_signature", "pgp_pubkeyblock", "pgp_packets", "pgp_message") if x in targets]
+        limit = 250 if tier == "quick" else 3000
+        for f in hand[:limit]:
+            data = open(f, "rb").read(); nhand += 1
+            for tid in ids: open(os.path.join(corpus, "handoff-%d-%s" % (tid, os.path.basename(f))), "wb").write(bytes([tid]) + data)
+    maxlen = 20000 if tier == "quick" else 60000
+    stats = os.path.join(work, group, "stats.txt"); log = os.path.join(work, group, "fuzz.log")
+    cmd = [exe, "-fork=%d" % workers, "-ignore_crashes=1", "-ignore_ooms=1", "-ignore_timeouts=1", "-max_total_time=%d" % budget, "-timeout=25", "-rss_limit_mb=3000", "-malloc_limit_mb=1500",
+           "-max_len=%d" % maxlen, "-len_control=100", "-seed=%d" % (int(seed) % (2 ** 31) or 1), "-artifact_prefix=" + art + "/", corpus]
+    with open(log, "w") as lf:
+        try: subprocess.run(cmd, stdout=lf, stderr=subprocess.STDOUT, env=fenv(V, {"VF_STATS": stats, "VF_GROUP": group}), timeout=budget + 900)
+        except subprocess.TimeoutExpired: pass
+    text = open(log, errors="replace").read(); execs = 0
+    for m in re.finditer(r"^#(\d+): cov: (\d+) ft: (\d+) corp: (\d+) exec/s", text, re.M): execs = max(execs, int(m.group(1)))
+    cov = re.findall(r"cov: (\d+) ft: (\d+) corp: (\d+)", text); cov = cov[-1] if cov else ("0", "0", "0")
+    return {"group": group, "corpus": corpus, "art": art, "nseed": nseed, "nreg": len(reg), "nhand": nhand, "execs": execs, "cov": list(cov), "targets": targets, "stats": stats}
+
 def run_property(V, prop, tier, seed, meta):
     t0 = time.time()
     exe = build_targets(V, prop, meta)
-    work = os.path.join(V.BUILD, "fuzz", "%s-%s-%d" % (prop, tier, os.getpid())); shutil.rmtree(work, ignore_errors=True)
-    corpus = os.path.join(work, "corpus"); art = os.path.join(work, "art"); os.makedirs(corpus); os.makedirs(art)
+    work = os.path.join(V.BUILD, "fuzz", "%s-%s-%d" % (prop, tier, os.getpid())); shutil.rmtree(work, ignore_errors=True); os.makedirs(work)
     known = V.known_for(prop)
-    # 1. seeds
-    subprocess.run([exe], env=fenv(V, {"VF_GEN_CORPUS": corpus}), capture_output=True, text=True)
-    nseed = len(os.listdir(corpus))
-    reg = sorted(glob.glob(os.path.join(V.VERIF, "replays", prop, "*.bin")))
-    for f in reg: shutil.copy(f, os.path.join(corpus, "regression-" + os.path.basename(f)))
-    hand = sorted(glob.glob(os.path.join(V.BUILD, "handoff", prop, "*.bin")))
-    pgp_ids = [TARGETS.index(x) for x in ("pgp_signature", "pgp_pubkeyblock", "pgp_packets", "pgp_message")]
-    limit = 300 if tier == "quick" else 3000
-    for f in hand[:limit]:
-        data = open(f, "rb").read()
-        for tid in pgp_ids:
-            open(os.path.join(corpus, "handoff-%d-%s" % (tid, os.path.basename(f))), "wb").write(bytes([tid]) + data)
-    # 2. campaign
     budget = int(os.environ.get("VERIF_FUZZ_SECONDS", meta.get("fuzz_seconds", {}).get(tier, 75 if tier == "quick" else 1500)))
-    maxlen = 20000 if tier == "quick" else 60000
-    stats = os.path.join(work, "stats.txt")
-    cmd = [exe, "-fork=%d" % V.NCPU, "-ignore_crashes=1", "-ignore_ooms=1", "-ignore_timeouts=1", "-max_total_time=%d" % budget, "-timeout=25", "-rss_limit_mb=3000", "-malloc_limit_mb=1500",
-           "-max_len=%d" % maxlen, "-seed=%d" % (int(seed) % (2 ** 31) or 1), "-artifact_prefix=" + art + "/", "-print_final_stats=1", corpus]
-    log = os.path.join(work, "fuzz.log")
-    with open(log, "w") as lf:
-        subprocess.run(cmd, stdout=lf, stderr=subprocess.STDOUT, env=fenv(V, {"VF_STATS": stats}), timeout=budget + 900)
-    text = open(log, errors="replace").read()
-    execs = 0
-    for m in re.finditer(r"^#(\d+): cov: (\d+) ft: (\d+) corp: (\d+) exec/s", text, re.M): execs = max(execs, int(m.group(1)))
-    cov = re.findall(r"cov: (\d+) ft: (\d+) corp: (\d+)", text); cov = cov[-1] if cov else ("0", "0", "0")
-    # 3. artefacts -> buckets
-    arts = sorted(glob.glob(os.path.join(art, "crash-*")))
-    others = sorted(glob.glob(os.path.join(art, "timeout-*")) + glob.glob(os.path.join(art, "oom-*")))
-    examine = arts[: (600 if tier == "quick" else 3000)]
-    buckets = {}
-    def classify(path):
-        data = open(path, "rb").read(); target = TARGETS[data[0] % len(TARGETS)] if data else "empty"
-        rc, err = run_one(V, exe, path)
-        if rc == 0: return path, None, target, ""
-        return path, signature(V, target, err, rc), target, err[-2500:]
+    scale = max(1, V.NCPU // 16)
+    groups = dict(GROUPS)
+    if os.environ.get("VERIF_FUZZ_GROUPS"):   # development aid: concentrate all workers on some groups
+        sel = os.environ["VERIF_FUZZ_GROUPS"].split(","); groups = {g: max(1, V.NCPU // len(sel)) for g in sel}
+    with ThreadPoolExecutor(len(groups)) as pool:
+        camps = list(pool.map(lambda kv: campaign(V, exe, kv[0], max(1, kv[1] * scale), work, tier, seed, budget, prop), groups.items()))
+    # artefacts -> buckets
+    buckets = {}; narts = 0; nothers = 0; examined = 0
+    jobs = []
+    for c in camps:
+        arts = sorted(glob.glob(os.path.join(c["art"], "crash-*"))); narts += len(arts)
+        nothers += len(glob.glob(os.path.join(c["art"], "timeout-*")) + glob.glob(os.path.join(c["art"], "oom-*")))
+        for a in arts[: (300 if tier == "quick" else 1500)]: jobs.append((c, a))
+    def classify(job):
+        c, path = job; data = open(path, "rb").read(); target = c["targets"][data[0] % len(c["targets"])] if data else "empty"
+        rc, err = run_one(V, exe, path, c["group"])
+        if rc == 0: return path, None, target, "", c["group"]
+        return path, signature(V, target, err, rc), target, err[-2500:], c["group"]
     with ThreadPoolExecutor(V.NCPU) as pool:
-        for path, sig, target, err in pool.map(classify, examine):
-            if sig is None: buckets.setdefault("not-reproducible", []).append((path, target, "")); continue
-            buckets.setdefault(sig, []).append((path, target, err))
+        for path, sig, target, err, group in pool.map(classify, jobs):
+            examined += 1
+            buckets.setdefault(sig or "not-reproducible", []).append((path, target, err, group))
     known_hits = {}; violations = []
     rdir = os.path.join(V.BUILD, "replay", prop); os.makedirs(rdir, exist_ok=True)
     for sig, items in sorted(buckets.items()):
         if sig == "not-reproducible": continue
         if sig in known: known_hits[sig] = len(items); continue
-        # confirm three times on the smallest artefact
-        items.sort(key=lambda it: os.path.getsize(it[0])); path = items[0][0]
-        again = [signature(V, items[0][1], *reversed(run_one(V, exe, path))) if False else None for _ in range(0)]
-        ok = True
-        for _ in range(2):
-            rc, err = run_one(V, exe, path)
-            if rc == 0: ok = False
+        items.sort(key=lambda it: os.path.getsize(it[0])); path, target, err, group = items[0]
+        ok = all(run_one(V, exe, path, group)[0] != 0 for _ in range(2))
         if not ok: buckets.setdefault("flaky", []).append(items[0]); continue
-        dst = os.path.join(rdir, "%s-%s.bin" % (prop, hashlib.sha256(open(path, "rb").read()).hexdigest()[:12])); shutil.copy(path, dst)
-        violations.append((sig, dst, items[0][2], len(items)))
-    # 4. gate statistics on the final corpus (crash tolerant merge pass)
-    merged = os.path.join(work, "merged"); os.makedirs(merged); stats2 = os.path.join(work, "stats2.txt")
-    try:
-        subprocess.run([exe, "-merge=1", "-timeout=25", "-rss_limit_mb=3000", merged, corpus], capture_output=True, text=True, env=fenv(V, {"VF_STATS": stats2}), timeout=1200)
-    except subprocess.TimeoutExpired: pass
-    per_target = {}
-    for sf in (stats, stats2):
-        if not os.path.exists(sf): continue
+        dst = os.path.join(rdir, "%s-%s-%s.bin" % (group, prop, hashlib.sha256(open(path, "rb").read()).hexdigest()[:12])); shutil.copy(path, dst)
+        violations.append((sig, dst, err, len(items)))
+    # gate statistics on the final corpora (crash tolerant merge pass)
+    per_target = {}; samples = []
+    def tally(sf, campaign_phase):
+        if not os.path.exists(sf): return
         for l in open(sf):
             p = l.split()
             if len(p) == 3:
                 d = per_target.setdefault(p[0], {"campaign_execs": 0, "campaign_gate_passes": 0, "corpus_units": 0, "corpus_units_passing_gate": 0})
-                if sf == stats: d["campaign_execs"] += int(p[1]); d["campaign_gate_passes"] += int(p[2])
+                if campaign_phase: d["campaign_execs"] += int(p[1]); d["campaign_gate_passes"] += int(p[2])
                 else: d["corpus_units"] += int(p[1]); d["corpus_units_passing_gate"] += int(p[2])
+    def merge(c):
+        merged = os.path.join(work, c["group"], "merged"); os.makedirs(merged); s2 = os.path.join(work, c["group"], "stats2.txt")
+        try: subprocess.run([exe, "-merge=1", "-timeout=25", "-rss_limit_mb=3000", merged, c["corpus"]], capture_output=True, text=True, env=fenv(V, {"VF_STATS": s2, "VF_GROUP": c["group"]}), timeout=1500)
+        except subprocess.TimeoutExpired: pass
+        return merged, s2
+    with ThreadPoolExecutor(len(camps)) as pool:
+        for c, (merged, s2) in zip(camps, pool.map(merge, camps)):
+            tally(c["stats"], True); tally(s2, False)
+            fl = sorted(os.listdir(merged))
+            for f in fl[:: max(1, len(fl) // 6)][:6]:
+                b = open(os.path.join(merged, f), "rb").read(); samples.append({"group": c["group"], "target": c["targets"][b[0] % len(c["targets"])] if b else "empty", "size": len(b), "head_hex": b[:40].hex()})
     nontriv = sum(d["corpus_units_passing_gate"] for d in per_target.values())
-    samples = []
-    for f in sorted(os.listdir(merged))[:400:40]:
-        b = open(os.path.join(merged, f), "rb").read(); samples.append({"target": TARGETS[b[0] % len(TARGETS)] if b else "empty", "size": len(b), "head_hex": b[:48].hex()})
+    execs = max(sum(c["execs"] for c in camps), sum(d["campaign_execs"] for d in per_target.values()))
     ev = {"property_id": prop, "tier": tier, "seed": int(seed), "level": meta["level"],
-          "coverage": {"evaluations": max(execs, sum(d["campaign_execs"] for d in per_target.values())), "distinct_nontrivial": nontriv, "rule": meta["rule"],
-                       "samples": samples or [{"note": "no corpus unit"}], "per_target": per_target, "libfuzzer_cov_ft_corp": list(cov), "seed_inputs": nseed, "regression_inputs": len(reg), "handoff_inputs": min(len(hand), limit),
-                       "crash_artefacts": len(arts), "crash_artefacts_examined": len(examine), "buckets": {k: len(v) for k, v in buckets.items()}, "excluded_known": known_hits,
-                       "timeout_or_oom_artefacts_not_judged": len(others), "budget_seconds": budget, "engine": "libFuzzer fork mode, ASan+UBSan, GMP write guard, allocator shim"},
+          "coverage": {"evaluations": execs, "distinct_nontrivial": nontriv, "rule": meta["rule"], "samples": samples or [{"note": "no corpus unit"}], "per_target": per_target,
+                       "campaigns": [{k: c[k] for k in ("group", "nseed", "nreg", "nhand", "execs", "cov")} for c in camps],
+                       "crash_artefacts": narts, "crash_artefacts_examined": examined, "buckets": {k: len(v) for k, v in buckets.items()}, "excluded_known": known_hits,
+                       "timeout_or_oom_artefacts_not_judged": nothers, "budget_seconds": budget, "engine": "libFuzzer fork mode (four target groups in parallel), ASan+UBSan, GMP write guard, allocator shim"},
           "assumptions": meta.get("assumptions", []), "wall_s": round(time.time() - t0, 1), "violations": len(violations)}
     V.write_evidence(prop, ev)
-    allk = known
     for k, n in sorted(known_hits.items()):
-        print("KNOWN-FINDING: property=%s %s — %s (%d artefacts)" % (prop, k, allk.get(k, {}).get("what", ""), n))
-    print("%s tier=%s execs=%d corpus_units_passing_gate=%d crash_artefacts=%d buckets=%d violations=%d wall=%.1fs" % (prop, tier, ev["coverage"]["evaluations"], nontriv, len(arts), len(buckets), len(violations), time.time() - t0))
+        print("KNOWN-FINDING: property=%s %s — %s (%d artefacts)" % (prop, k, known.get(k, {}).get("what", ""), n))
+    print("%s tier=%s execs=%d corpus_units_passing_gate=%d crash_artefacts=%d buckets=%d violations=%d wall=%.1fs" % (prop, tier, execs, nontriv, narts, len(buckets), len(violations), time.time() - t0))
     for sig, dst, err, n in violations:
         print("  signature=%s (%d artefacts) :: %s" % (sig, n, (re.findall(r"(?:ERROR|runtime error|Assertion|GMP-GUARD|VF-)[^\n]*", err) or [""])[0][:300]))
         print("VIOLATION property=%s replay=%s" % (prop, dst))
@@ -181,7 +195,10 @@ def run_property(V, prop, tier, seed, meta):
 
 def replay(V, prop, path, meta):
     exe = build_targets(V, prop, meta)
-    data = open(path, "rb").read(); target = TARGETS[data[0] % len(TARGETS)] if data else "empty"
-    rc, err = run_one(V, exe, path)
+    group = os.path.basename(path).split("-")[0]
+    if group not in GROUPS: print("file name must start with the target group (imp-, ctor-, ver-, pgp-)"); return 2
+    targets = group_targets(V, exe, group)
+    data = open(path, "rb").read(); target = targets[data[0] % len(targets)] if data else "empty"
+    rc, err = run_one(V, exe, path, group)
     if rc == 0: print("pass (clean refusal) target=%s" % target); return 0
     print("fail", signature(V, target, err, rc)); print(err[-3000:]); return 1
